@@ -17,14 +17,24 @@ VARIABLES cph,      \* phase: "start" | "piped" | "failed" | "stored" | "rejecte
           cpl,      \* abstract length of the pipeline output
           cout,     \* [raw, len, first] what compress() returned
           cterm,    \* symbolic content
-          cres      \* result of the last call
-cvars == <<cph, csel, cin, cpl, cout, cterm, cres>>
+          cres,     \* result of the last call
+          chist     \* HISTORY: bytes decompressed by earlier decompress() calls of the same process
+cvars == <<cph, csel, cin, cpl, cout, cterm, cres, chist>>
+
+\* volumes around every session budget of security.rs that fits TLC's integers (default 1 GiB; strict 100 MB); the
+\* permissive budget (16 GiB) is reached in the driver's thorough history case only
+HistVolumes == {0, 104857600, MaxSession - 1, MaxSession, MaxSession + 2097152}
+\* the legacy entry point builds a SessionTracker per call; a tracker shared by all calls of the process would make the
+\* n-th call see the volume of the n-1 before it (negative control MC_Codec_neg: LegacyTrackerIsPerCall <- FALSE)
+LegacyTrackerIsPerCall == TRUE
+LegacySessionVolume(h) == IF LegacyTrackerIsPerCall THEN 0 ELSE h
 
 NoOut == [raw |-> TRUE, len |-> 0, first |-> -1]
 
-CInitWith(M, N, C(_)) ==
-  /\ csel \in M /\ cin \in N /\ cpl \in C(cin)
+CInitWithH(M, N, C(_), H) ==
+  /\ csel \in M /\ cin \in N /\ cpl \in C(cin) /\ chist \in H
   /\ cph = "start" /\ cout = NoOut /\ cterm = Src /\ cres = "-"
+CInitWith(M, N, C(_)) == CInitWithH(M, N, C, {0})
 
 \* compress_internal: run the pipeline (or refuse)
 RunPipeline ==
@@ -32,24 +42,24 @@ RunPipeline ==
   /\ IF CompressPlan(csel).ok /\ AdpcmAligned(csel, cin)
      THEN cph' = "piped" /\ cterm' = Encode(CompressPlan(csel).stages, Src) /\ cres' = "ok"
      ELSE cph' = "failed" /\ cterm' = cterm /\ cres' = "err:Compression"
-  /\ UNCHANGED <<csel, cin, cpl, cout>>
+  /\ UNCHANGED <<csel, cin, cpl, cout, chist>>
 
 \* compress(): store raw when the method byte plus the payload would not be shorter
 StoreRaw ==
   /\ cph = "piped" /\ StoresRaw(cin, cpl)
   /\ cph' = "stored" /\ cout' = [raw |-> TRUE, len |-> cin, first |-> -1] /\ cterm' = Src
-  /\ UNCHANGED <<csel, cin, cpl, cres>>
+  /\ UNCHANGED <<csel, cin, cpl, cres, chist>>
 EmitPrefixed ==
   /\ cph = "piped" /\ ~StoresRaw(cin, cpl)
   /\ cph' = "stored" /\ cout' = [raw |-> FALSE, len |-> 1 + cpl, first |-> csel]
-  /\ UNCHANGED <<csel, cin, cpl, cterm, cres>>
+  /\ UNCHANGED <<csel, cin, cpl, cterm, cres, chist>>
 
 \* decompress(data[1..], data[0], n) on the compressor's own output: limit checks first
 LimitCheck ==
   /\ cph = "stored" /\ ~cout.raw
-  /\ cres' = PreCheck(cout.first, cout.len - 1, cin)
+  /\ cres' = PreCheckS(cout.first, cout.len - 1, cin, LegacySessionVolume(chist))
   /\ cph' = IF cres' = "ok" THEN "admitted" ELSE "rejected"
-  /\ UNCHANGED <<csel, cin, cpl, cout, cterm>>
+  /\ UNCHANGED <<csel, cin, cpl, cout, cterm, chist>>
 
 \* ... then the decode pipeline and the post checks
 DecodeStep ==
@@ -58,7 +68,7 @@ DecodeStep ==
   /\ cres' = IF cterm' = Garbage THEN "err:Compression" ELSE IF cterm' = Panicked THEN "panic"
               ELSE PostCheck(cin, cin)
   /\ cph' = "decoded"
-  /\ UNCHANGED <<csel, cin, cpl, cout>>
+  /\ UNCHANGED <<csel, cin, cpl, cout, chist>>
 
 CNext == RunPipeline \/ StoreRaw \/ EmitPrefixed \/ LimitCheck \/ DecodeStep
 
@@ -72,6 +82,9 @@ PrefixIffShrunk  == cph \in {"stored", "rejected", "admitted", "decoded"} =>
 SupportedSucceed == (cph = "failed" /\ Supported(csel)) => ~AdpcmAligned(csel, cin)
 \* accepted under the default limits -- except in the named region
 OwnOutputAccepted == cph = "rejected" => BombHeuristicRejectsOwnOutput(cout.len - 1, cin)
+\* call-history independence: the verdict on a unit is the verdict of the first call of the process, whatever volume
+\* earlier calls decompressed
+HistoryIndependent == cph \in {"rejected", "admitted"} => cres = PreCheck(cout.first, cout.len - 1, cin)
 \* decode is the reverse of encode -- except for the named deviations
 DispatchInverse  == cph = "decoded" =>
                       IF DispatchDeviation(csel) THEN TRUE
